@@ -13,6 +13,9 @@ import (
 	"path/filepath"
 	"sort"
 	"strings"
+	"time"
+
+	"github.com/nspcc-dev/bbolt"
 
 	meta "github.com/nspcc-dev/neofs-node/pkg/local_object_storage/metabase"
 	cid "github.com/nspcc-dev/neofs-sdk-go/container/id"
@@ -47,9 +50,14 @@ type MetaBackend struct {
 // OpenMetaBackend opens a fresh metabase at dir/meta.
 func OpenMetaBackend(dir string, ep *stor.Epoch) (*MetaBackend, error) {
 	b := &MetaBackend{Path: filepath.Join(dir, "meta"), Ep: ep}
-	db, err := stor.OpenMeta(b.Path, ep)
+	db, err := stor.OpenMeta(b.Path, ep, boltOpts())
 	b.DB = db
 	return b, err
+}
+
+// boltOpts: no fsync (the files live on tmpfs and are never crash-tested here).
+func boltOpts() meta.Option {
+	return meta.WithBoltDBOptions(&bbolt.Options{NoSync: true, NoFreelistSync: true, Timeout: time.Second})
 }
 
 func (b *MetaBackend) Put(o *object.Object) error { return b.DB.Put(o) }
@@ -73,7 +81,7 @@ func (b *MetaBackend) Reopen() error {
 	if err := b.DB.Close(); err != nil {
 		return err
 	}
-	db, err := stor.OpenMeta(b.Path, b.Ep)
+	db, err := stor.OpenMeta(b.Path, b.Ep, boltOpts())
 	b.DB = db
 	return err
 }
